@@ -5,13 +5,13 @@
 (* (PyAutoArray: autoarray/dataset/imaging/simulator.py,                   *)
 (*  autoarray/dataset/interferometer/simulator.py).                        *)
 (*                                                                         *)
-(* This module EXTENDS nothing of the other checks but INSTANCEs them, so  *)
-(* that every stage is stated with the operators that already define it:   *)
-(*   C!  Convolution.tla (C03)  whole-frame 'same' convolution             *)
-(*   R!  Resize.tla      (C14)  padding / trimming for an odd kernel       *)
-(*   P!  Preprocess.tla  (X01)  sqrt(|d t|)/t, the fixed-point verdict on  *)
-(*                              square roots, seed-then-draw               *)
-(*   D!  Dft.tla         (C13)  the forward transform on the lattice       *)
+(* Every stage is stated with the operators that already define it in the  *)
+(* other checks (restated below, see "Definitions shared with ..."):       *)
+(*   Convolution.tla (C03)  whole-frame 'same' convolution                 *)
+(*   Resize.tla      (C14)  padding / trimming for an odd kernel           *)
+(*   Preprocess.tla  (X01)  sqrt(|d t|)/t, the fixed-point verdict on      *)
+(*                          square roots, seed-then-draw                   *)
+(*   Dft.tla         (C13)  the forward transform on the lattice           *)
 (*                                                                         *)
 (* Exact domain (imaging).  A frame is H x W, native images are row-major  *)
 (* sequences.  A kernel is a flat row-major sequence K of integers whose   *)
@@ -60,28 +60,117 @@ CONSTANTS
   HistChoices,   \* set of <<H, W, variant, seed>>: what a call of a history may be
   HistLen,       \* number of calls in a history
   VisShapes, VisOrigins, VisBaselines,   \* interferometer: frames, mask origins <<oy2, ox2>>, baseline sequences
-  VisMaskMode,   \* Dft!MaskFamily mode
-  VisHistLen     \* number of calls in an interferometer history (1 = single calls)
+  VisMaskMode,   \* "all" | "few" | "two": which masks of the frames with more than 3 cells (as in Dft.tla)
+  VisHistLen     \* number of calls in an interferometer history (1 = single calls only)
 
-C == INSTANCE Convolution WITH Families <- {}, Variants <- {}, EvenKernels <- {},
-                               shape <- << 1, 1 >>, ks <- << 1, 1 >>, variant <- "pos", U <- {}, phase <- "",
-                               frames <- << >>, op <- << >>
-R == INSTANCE Resize WITH InShapes <- {}, OutShapes <- {}, KernelShapes <- {}, MaskShapes <- {}, MaskKernels <- {},
-                          Buffers <- {}, HalfScales <- {}, Origins <- {},
-                          inst <- [kind |-> "none"], phase <- "", obs <- << >>
-P == INSTANCE Preprocess WITH PixShapes <- {}, MaskMax <- 0, PixTuples <- << >>, PixOffs <- {}, Gains <- {}, ExpTimes <- {},
-                              WeightVals <- << >>, WeightOffs <- {}, EdgeShapes <- {}, EdgeVals <- << >>, EdgeOffs <- {},
-                              SnrShapes <- {}, SnrTuples <- << >>, SnrOffs <- {}, Limits <- {}, ResizeIn <- {},
-                              ResizeOut <- {}, PsfShapes <- {}, RngFns <- {}, Seeds <- {}, GlobalSeeds <- {}, FxScale <- 1,
-                              inst <- [kind |-> "none"], phase <- "", obs <- << >>
-D == INSTANCE Dft WITH Shapes <- {}, Origins <- {}, Mult <- {}, MaxB <- 0, MaskMode <- VisMaskMode, Rich <- FALSE,
-                       shape <- << 1, 1 >>, U <- {}, org <- << 0, 0 >>, B <- << >>, phase <- "", inp <- << >>, obs <- << >>
+-----------------------------------------------------------------------------
+(* Definitions shared with the modules of the other checks.  They are RESTATED here, not INSTANCEd: those modules      *)
+(* declare CONSTANTS and VARIABLES of their own machines and keep growing, and an INSTANCE breaks whenever one of them   *)
+(* gains a parameter.  Each block names the module and operator it restates, verbatim up to renaming.                  *)
+
+\* ---- frames (Masks.tla / Convolution.tla / Resize.tla / Dft.tla all use these) -------------------------------
+Cells(H, W) == (0 .. H - 1) \X (0 .. W - 1)
+Lin(c, W) == c[1] * W + c[2]
+CellOf(k, W) == << k \div W, k % W >>
+InFrame(c, H, W) == c[1] >= 0 /\ c[1] < H /\ c[2] >= 0 /\ c[2] < W
+RowMajor(H, W) == [k \in 1 .. H * W |-> CellOf(k - 1, W)]
+SlimSeq(u, H, W) == SelectSeq(RowMajor(H, W), LAMBDA c : c \in u)
+
+\* ---- Convolution.tla (C03): Sum, Offsets, ImgAt, Full, WholeFrame ------------------------------------------------
+Sum(s) == FoldLeft(LAMBDA a, b : a + b, 0, s)
+\* kernel entry n (flat, row-major) sits at this offset from the kernel centre
+Offsets(kh, kw) == [n \in 1 .. kh * kw |-> << ((n - 1) \div kw) - (kh \div 2), ((n - 1) % kw) - (kw \div 2) >>]
+\* a native image read at any integer position: zero outside the frame
+ImgAt(img, c, H, W) == IF InFrame(c, H, W) THEN img[Lin(c, W) + 1] ELSE 0
+\* (img * K)[t] = SUM over offsets d of Kc[d] * img[t - d]   ("flipped": the image index runs against d)
+Full(img, K, H, W, kh, kw, t) ==
+    LET off == Offsets(kh, kw)
+    IN Sum([n \in 1 .. kh * kw |-> K[n] * ImgAt(img, << t[1] - off[n][1], t[2] - off[n][2] >>, H, W)])
+\* whole-frame 'same' convolution (what Kernel2D.convolved_array_from computes on an unmasked array)
+WholeFrame(img, K, H, W, kh, kw) == [n \in 1 .. H * W |-> Full(img, K, H, W, kh, kw, CellOf(n - 1, W))]
+
+\* ---- Resize.tla (C14): Pad, WindowSrc, PadShape, TrimShape, PadForKernel, TrimForKernel ---------------------------
+PadTag == -1   \* source tag "padding / zero"
+\* the H2 x W2 window of an H x W frame whose top-left output cell shows input cell <<oy, ox>>
+WindowSrc(H, W, U, H2, W2, oy, ox) ==
+    [k \in 1 .. H2 * W2 |->
+        LET c == << (k - 1) \div W2 + oy, ((k - 1) % W2) + ox >>
+        IN IF InFrame(c, H, W) /\ c \in U THEN Lin(c, W) ELSE PadTag]
+PadShape(H, W, kh, kw) == << H + kh - 1, W + kw - 1 >>
+TrimShape(H, W, kh, kw) == << H - (kh - 1), W - (kw - 1) >>
+PadForKernel(H, W, U, kh, kw) == WindowSrc(H, W, U, H + kh - 1, W + kw - 1, -(kh \div 2), -(kw \div 2))
+TrimForKernel(H, W, U, kh, kw) == WindowSrc(H, W, U, H - (kh - 1), W - (kw - 1), kh \div 2, kw \div 2)
+
+\* ---- Preprocess.tla (X01): Rad, PoissonRad, InRange, Isqrt, IsSquare, FxSqrtOk, ExactSqrtOk, SqrtOk, CodeDraw --------
+Abs(x) == IF x < 0 THEN -x ELSE x
+\* every noise-map builder is sqrt(N) / D with integers N >= 0, D > 0;  from data in eps and an exposure time: sqrt(|d t|) / t
+Rad(N, D) == [n |-> N, d |-> D]
+PoissonRad(d, t) == Rad(Abs(d * t), t)
+InRange(x) == x >= -10000000 /\ x <= 10000000
+RECURSIVE IsqrtB(_, _, _)
+IsqrtB(x, lo, hi) == IF lo = hi THEN lo
+                     ELSE LET m == (lo + hi + 1) \div 2
+                          IN IF m * m <= x THEN IsqrtB(x, m, hi) ELSE IsqrtB(x, lo, m - 1)
+Isqrt(x) == IsqrtB(x, 0, 46340)
+IsSquare(x) == x >= 0 /\ Isqrt(x) * Isqrt(x) = x
+\* coarse fixed point: s = round(S * sqrt(N) / D) up to one unit; guarded against 32-bit overflow
+FxInRange(s, N, D, S) == /\ S >= 1 /\ N >= 0 /\ D >= 1
+                         /\ N <= 2000000000 \div (S * S)
+                         /\ s >= 0 /\ s <= (46000 \div D) - 1
+FxSqrtOk(s, N, D, S) ==
+    /\ FxInRange(s, N, D, S)
+    /\ S * S * N <= ((s + 1) * D) * ((s + 1) * D)
+    /\ (s >= 1 => ((s - 1) * D) * ((s - 1) * D) <= S * S * N)
+\* exact mode for perfect squares N = r^2: sf = round(SF * r / D), |sf D - SF r| <= D/2
+ExactSqrtOk(sf, N, D, SF) ==
+    LET r == Isqrt(N)
+    IN /\ sf >= 0 /\ D >= 1 /\ sf <= 2000000000 \div D /\ r <= 2000000000 \div SF
+       /\ Abs(sf * D - SF * r) <= D \div 2
+SqrtOk(s, sf, rad, S, SF) ==
+    IF IsSquare(rad.n) THEN ExactSqrtOk(sf, rad.n, rad.d, SF) ELSE FxSqrtOk(s, rad.n, rad.d, S)
+\* the seeded noise functions: `if seed == -1: seed = randint(...)`; np.random.seed(seed); draw from the global generator.
+\* A content is named by the generator state it was drawn from.
+CodeDraw(fn, seed, g) == IF seed = -1 THEN << fn, "global", g >> ELSE << fn, "seeded", seed >>
+
+\* ---- Dft.tla (C13): Gaussian integers, Phase, Centres, OnLattice, Vis, MaskFamily, Images ----------------------------
+GZero == << 0, 0 >>
+GAdd(a, b) == << a[1] + b[1], a[2] + b[2] >>
+GScale(n, a) == << n * a[1], n * a[2] >>
+\* exp(-2 pi i n / 4) = (-i)^n
+CosQ(n) == CASE n % 4 = 0 -> 1 [] n % 4 = 2 -> -1 [] OTHER -> 0
+SinQ(n) == CASE n % 4 = 1 -> -1 [] n % 4 = 3 -> 1 [] OTHER -> 0
+Phase(n) == << CosQ(n), SinQ(n) >>
+GSum(s0) == LET s == TLCEval(s0)
+               f[k \in 0 .. Len(s)] == IF k = 0 THEN GZero ELSE GAdd(f[k - 1], s[k]) IN f[Len(s)]
+\* centre of cell <<i,j>> in half pixels: y grows upwards, x to the right, the frame centre sits at the origin
+Centre(c, H, W, org) == << (H - 1) - 2 * c[1] + org[1], 2 * c[2] - (W - 1) + org[2] >>
+Centres(U, H, W, org) == LET s == SlimSeq(U, H, W) IN TLCEval([p \in 1 .. Len(s) |-> Centre(s[p], H, W, org)])
+\* u pairs with x, v pairs with y:  8 (x u + y v) in turns = 2 n
+TwiceN(c, b) == c[2] * b[1] + c[1] * b[2]
+OnLattice(Cn, Bs) == \A p \in DOMAIN Cn : \A k \in DOMAIN Bs : TwiceN(Cn[p], Bs[k]) % 2 = 0
+PhaseN(c, b) == TwiceN(c, b) \div 2
+VisAt(img, Cn, b) == GSum([p \in 1 .. Len(Cn) |-> GScale(img[p], Phase(PhaseN(Cn[p], b)))])
+DftVis(img, Cn, Bs) == TLCEval([k \in 1 .. Len(Bs) |-> VisAt(img, Cn, Bs[k])])
+\* Dft!MaskFamily for the modes "all" / "few" / "two"
+MaskFamily(H, W) ==
+    LET all == Cells(H, W)
+        first == << 0, 0 >>
+        last == << H - 1, W - 1 >>
+        mid == CellOf((H * W) \div 2, W)
+    IN IF VisMaskMode = "all" \/ H * W <= 3 THEN (SUBSET all) \ {{}}
+       ELSE IF VisMaskMode = "two" THEN {all \ {first}, {mid, last}}
+       ELSE {all, all \ {first}, all \ {mid}, {first}, {last}, {first, last}, {mid, last}}
+\* Dft!Images (the family without Rich): values in -2 .. 2, both signs, zeros
+Ramp(n) == [p \in 1 .. n |-> ((2 * p) % 5) - 2]
+UnitImg(n, q, c) == [p \in 1 .. n |-> IF p = q THEN c ELSE 0]
+Images(n) ==
+    IF n = 1 THEN [1 .. n -> -2 .. 2]
+    ELSE {UnitImg(n, q, IF q % 2 = 0 THEN -2 ELSE 1) : q \in 1 .. n}
+         \cup {Ramp(n), [p \in 1 .. n |-> IF p % 2 = 0 THEN -1 ELSE 2]}
 
 -----------------------------------------------------------------------------
 (* Layer 1: meaning *)
 
-Abs(x) == IF x < 0 THEN -x ELSE x
-Sum(s) == C!Sum(s)
 Pow2s == { 1, 2, 4, 8, 16, 32, 64, 128, 256, 512, 1024, 2048, 4096 }
 Pow2Above(s) == CHOOSE q \in Pow2s : q >= s /\ \A p \in Pow2s : p >= s => q <= p
 IsOddShape(kh, kw) == kh % 2 = 1 /\ kw % 2 = 1
@@ -97,13 +186,13 @@ AbsSum(K) == Sum([n \in DOMAIN K |-> Abs(K[n])])
 
 \* ---- stages 1-2: the image convolved with the PSF, on the frame of the image ------------------------
 \* (the whole-frame 'same' convolution of C03: the image counts as zero outside its frame)
-Blurred(img, Kf, H, W, kh, kw) == C!WholeFrame(img, Kf, H, W, kh, kw)
+Blurred(img, Kf, H, W, kh, kw) == WholeFrame(img, Kf, H, W, kh, kw)
 
 \* the same stage as the three steps  pad by half a kernel / convolve / trim back  (C14's data movements)
-AllCells(H, W) == C!Cells(H, W)
-Move(src, v) == [k \in DOMAIN src |-> IF src[k] = R!Pad THEN 0 ELSE v[src[k] + 1]]
-PadImg(img, H, W, kh, kw) == Move(R!PadForKernel(H, W, AllCells(H, W), kh, kw), img)
-TrimImg(v, PH, PW, kh, kw) == Move(R!TrimForKernel(PH, PW, AllCells(PH, PW), kh, kw), v)
+AllCells(H, W) == Cells(H, W)
+Move(src, v) == [k \in DOMAIN src |-> IF src[k] = PadTag THEN 0 ELSE v[src[k] + 1]]
+PadImg(img, H, W, kh, kw) == Move(PadForKernel(H, W, AllCells(H, W), kh, kw), img)
+TrimImg(v, PH, PW, kh, kw) == Move(TrimForKernel(PH, PW, AllCells(PH, PW), kh, kw), v)
 
 \* ---- stage 3 / 5: the background sky ---------------------------------------------------------------
 AddConst(v, c) == [k \in DOMAIN v |-> v[k] + c]
@@ -121,13 +210,13 @@ IsPoissonReflection(Y, X, tm, cw) == LET d == 2 * X * tm - Y IN d >= 0 /\ d % cw
 \* The machine's stand-in for the seeded generator: ANY function of (seed, expected counts, position) would do; what
 \* matters is that it is a function of nothing else.
 Draw(seed, lam, k) == LET n == lam + ((seed + 3 * k) % 5) - 2 IN IF n < 0 THEN 0 ELSE n
-\* (the content of a seeded draw as X01 names it: P!CodeDraw)
-DrawId(fn, seed) == P!CodeDraw(fn, seed, 0)
+\* (the content of a seeded draw as X01 names it: CodeDraw)
+DrawId(fn, seed) == CodeDraw(fn, seed, 0)
 
 \* ---- the noise map ------------------------------------------------------------------------------------
 \* X01: noise = sqrt(|data_eps t|) / t = sqrt(N) / D with N = |counts|, D = t.  Here the counts of a pixel whose value
 \* in the unit u/tm is Y are Y / cw and t = tm 2^e: noise = sqrt(|Y|) / tm in the unit sqrt(1/cw) / 2^e.
-CountsRad(Y, tm) == P!Rad(Abs(Y), tm)
+CountsRad(Y, tm) == Rad(Abs(Y), tm)
 
 \* ---- the documented pipeline as one function -----------------------------------------------------------
 \* c: simulator configuration; a: the arguments of one call [h, w, img, seed, g].
@@ -161,7 +250,7 @@ VisSelected(c) == SelectSeq(VisOrder, LAMBDA s : s # "GaussianNoise" \/ c.sigma)
 PrefixOf(p, s) == Len(p) <= Len(s) /\ \A j \in DOMAIN p : p[j] = s[j]
 
 \* ---- interferometer ----------------------------------------------------------------------------------
-VisNoiseFree(img, u, H, W, org, b) == D!Vis(img, D!Centres(u, H, W, org), b)
+VisNoiseFree(img, u, H, W, org, b) == DftVis(img, Centres(u, H, W, org), b)
 VisPipeline(c, a) ==
     [h |-> c.h, w |-> c.w, raised |-> FALSE, num |-> VisNoiseFree(a.img, c.u, c.h, c.w, c.org, c.b), den |-> 1,
      nmap |-> [kind |-> IF c.sigma THEN "sigma" ELSE "if-add-noise-false",
@@ -221,12 +310,14 @@ ImgSims(fam, kernels, flags, levels, times, n) ==
     { ImgSim(fam, x[1], x[2], x[3], x[4], n) :
         x \in { y \in kernels \X flags \X levels \X times : y[1][1] > 0 \/ y[2][1] } }
 VisSimsOf(s) ==
-    { [BlankSim EXCEPT !.kind = "vis", !.fam = IF VisHistLen > 1 THEN "vhist" ELSE "vsingle", !.h = s[1], !.w = s[2], !.u = u,
-                       !.org = o, !.b = b, !.sigma = sg, !.ncalls = VisHistLen] :
-        u \in D!MaskFamily(s[1], s[2]), o \in VisOrigins, b \in VisBaselines, sg \in BOOLEAN }
+    { [BlankSim EXCEPT !.kind = "vis", !.fam = IF n > 1 THEN "vhist" ELSE "vsingle", !.h = s[1], !.w = s[2], !.u = u,
+                       !.org = o, !.b = b, !.sigma = sg, !.ncalls = n] :
+        u \in MaskFamily(s[1], s[2]), o \in VisOrigins, b \in VisBaselines, sg \in BOOLEAN,
+        \* histories of VisHistLen calls on one object: on the frames of at most two cells
+        n \in { 1 } \cup (IF VisHistLen > 1 /\ s[1] * s[2] <= 2 THEN { VisHistLen } ELSE {}) }
 VisSims == UNION { VisSimsOf(s) : s \in VisShapes }
-VisSimOk(c) == /\ c.u \in D!MaskFamily(c.h, c.w)
-               /\ D!OnLattice(D!Centres(c.u, c.h, c.w, c.org), c.b)
+VisSimOk(c) == /\ c.u \in MaskFamily(c.h, c.w)
+               /\ OnLattice(Centres(c.u, c.h, c.w, c.org), c.b)
 
 Init ==
     /\ sim \in ImgSims("single", Kernels, FlagSets, SkyLevels, Times, 1)
@@ -259,20 +350,20 @@ Kf == PsfFine(sim.k, sim.norm)
 
 Pad ==
     /\ pc = "Call" /\ sim.kind = "img" /\ sim.psf
-    /\ LET ps == R!PadShape(work.h, work.w, sim.kh, sim.kw)
+    /\ LET ps == PadShape(work.h, work.w, sim.kh, sim.kw)
        IN work' = [work EXCEPT !.h = ps[1], !.w = ps[2], !.v = PadImg(work.v, work.h, work.w, sim.kh, sim.kw)]
     /\ pc' = "Pad" /\ log' = Append(log, "Pad")
     /\ UNCHANGED << sim, call, noisy, nmap, hist >>
 
 Convolve ==
     /\ pc = "Pad"
-    /\ work' = [work EXCEPT !.v = C!WholeFrame(work.v, Kf, work.h, work.w, sim.kh, sim.kw)]
+    /\ work' = [work EXCEPT !.v = WholeFrame(work.v, Kf, work.h, work.w, sim.kh, sim.kw)]
     /\ pc' = "Convolve" /\ log' = Append(log, "Convolve")
     /\ UNCHANGED << sim, call, noisy, nmap, hist >>
 
 Trim ==
     /\ pc = "Convolve"
-    /\ LET ts == R!TrimShape(work.h, work.w, sim.kh, sim.kw)
+    /\ LET ts == TrimShape(work.h, work.w, sim.kh, sim.kw)
        IN work' = [work EXCEPT !.h = ts[1], !.w = ts[2], !.v = TrimImg(work.v, work.h, work.w, sim.kh, sim.kw)]
     /\ pc' = "Trim" /\ log' = Append(log, "Trim")
     /\ UNCHANGED << sim, call, noisy, nmap, hist >>
@@ -288,7 +379,7 @@ DumpIfComplete(h2) ==
         PrintT(ToJson([k |-> "inst", kind |-> sim.kind, fam |-> sim.fam, psf |-> sim.psf, kh |-> sim.kh, kw |-> sim.kw,
                        kv |-> sim.kv, kern |-> sim.k, norm |-> sim.norm, pn |-> sim.pn, nm |-> sim.nm, sub |-> sim.sub,
                        sky |-> sim.sky, tm |-> sim.tm, h |-> sim.h, w |-> sim.w,
-                       u |-> LET s == D!SlimSeq(sim.u, sim.h, sim.w) IN [q \in 1 .. Len(s) |-> D!Lin(s[q], sim.w)],
+                       u |-> LET s == SlimSeq(sim.u, sim.h, sim.w) IN [q \in 1 .. Len(s) |-> Lin(s[q], sim.w)],
                        org |-> sim.org, b |-> sim.b, sigma |-> sim.sigma,
                        calls |-> [j \in DOMAIN h2 |-> h2[j].args]]))
 
@@ -332,9 +423,13 @@ Return ==
     /\ UNCHANGED << sim, call, work, noisy, nmap, log >>
 
 \* ---- the interferometer simulator ------------------------------------------------------------------------
+\* (histories draw from two images and two seeds, so that equal and different calls meet on one object)
+VisImages(c) == LET all == Images(Cardinality(c.u))
+                IN IF c.fam = "vhist" THEN { Ramp(Cardinality(c.u)), [p \in 1 .. Cardinality(c.u) |-> IF p % 2 = 0 THEN -1 ELSE 2] } ELSE all
+VisSeeds(c) == IF ~ c.sigma THEN { 7 } ELSE IF c.fam = "vhist" THEN { 0, 1 } ELSE Seeds
 VisCall ==
     /\ sim.kind = "vis" /\ pc \in { "new", "done" } /\ Len(hist) < sim.ncalls
-    /\ \E img \in D!Images(Cardinality(sim.u)) : \E s \in (IF sim.sigma THEN Seeds ELSE { 7 }) :
+    /\ \E img \in VisImages(sim) : \E s \in VisSeeds(sim) :
           /\ call' = [BlankCall EXCEPT !.h = sim.h, !.w = sim.w, !.seed = s, !.img = img]
           /\ sim' = [sim EXCEPT !.seed = s]
     /\ pc' = "Call" /\ log' = << >> /\ noisy' = << >> /\ nmap' = NoMap /\ work' = BlankWork
@@ -370,17 +465,17 @@ Spec == Init /\ [][Next]_vars
 -----------------------------------------------------------------------------
 (* Layer 3: properties of the design *)
 
-Img == sim.kind = "img"
-Vis == sim.kind = "vis"
+IsImg == sim.kind = "img"
+IsVis == sim.kind = "vis"
 LastCall == hist[Len(hist)]
 Done == pc = "done"
 
 \* the locally guarded stages run in the documented order, and exactly the stages the options select are run
 StageOrderAsDocumented ==
-    /\ Img => /\ PrefixOf(log, Selected(sim))
+    /\ IsImg => /\ PrefixOf(log, Selected(sim))
               /\ (Done /\ ~ LastCall.out.raised => log = Selected(sim))
               /\ (pc \notin { "new", "Call", "done" } => pc = log[Len(log)])
-    /\ Vis => /\ PrefixOf(log, VisSelected(sim))
+    /\ IsVis => /\ PrefixOf(log, VisSelected(sim))
               /\ (Done => log = VisSelected(sim))
 
 \* pad / convolve / trim is the 'same' convolution of C03 on the frame of the image, whatever the (odd) kernel shape
@@ -393,7 +488,7 @@ PadConvolveTrimIsSameConvolution ==
 
 \* the kernels: odd shapes, sums that are powers of two, exact normalisation
 KernelsAreExactlyNormalisable ==
-    Img => /\ IsOddShape(sim.kh, sim.kw) /\ Len(sim.k) = sim.kh * sim.kw
+    IsImg => /\ IsOddShape(sim.kh, sim.kw) /\ Len(sim.k) = sim.kh * sim.kw
            /\ KSum(sim.k) \in Pow2s
            /\ Sum(PsfFine(sim.k, TRUE)) = KSum(sim.k)                                 \* sums to 1 in units of 1/Q
            /\ PsfFine(sim.k, FALSE) = Scale(sim.k, KSum(sim.k))                       \* K itself in units of 1/Q
@@ -401,7 +496,7 @@ KernelsAreExactlyNormalisable ==
 
 \* with Poisson noise off the returned data are the convolved image plus the sky (minus the sky when it is subtracted)
 NoiseFreeDataIsConvolvedImagePlusSky ==
-    Img /\ Done /\ ~ sim.pn /\ ~ LastCall.out.raised =>
+    IsImg /\ Done /\ ~ sim.pn /\ ~ LastCall.out.raised =>
         LET a == LastCall.args
             conv == Blurred(a.img, Kf, a.h, a.w, sim.kh, sim.kw)
         IN /\ LastCall.out.den = 1
@@ -412,7 +507,7 @@ NoiseFreeDataIsConvolvedImagePlusSky ==
 \* with Poisson noise on, the sky is in the image when the draw is made and leaves it afterwards; every noisy value is
 \* the reflection of a non-negative count about the expected value
 SkyIsAddedBeforeTheDrawAndSubtractedAfter ==
-    Img /\ Done /\ sim.pn /\ ~ LastCall.out.raised =>
+    IsImg /\ Done /\ sim.pn /\ ~ LastCall.out.raised =>
         LET a == LastCall.args
             X == NoiseFreeWithSky(sim, a)
             out == LastCall.out
@@ -422,7 +517,7 @@ SkyIsAddedBeforeTheDrawAndSubtractedAfter ==
 \* the noise map is the constant when Poisson noise is not requested in it, X01's sqrt(|counts|)/t of the image WITH sky
 \* when it is -- never of the sky-subtracted data, so it does not depend on subtract_background_sky
 NoiseMapMatchesOption ==
-    Img /\ Done /\ ~ LastCall.out.raised =>
+    IsImg /\ Done /\ ~ LastCall.out.raised =>
         LET a == LastCall.args
             out == LastCall.out
         IN /\ (~ sim.nm => out.nmap = [kind |-> "const", rad |-> << >>])
@@ -433,11 +528,11 @@ NoiseMapMatchesOption ==
                      out.nmap.rad[k] = CountsRad(out.num[k] + (IF sim.sub THEN sim.sky * sim.tm ELSE 0), sim.tm))
            /\ out.nmap = ImgPipeline([sim EXCEPT !.sub = ~ sim.sub], a).nmap
            \* X01's formula on a noise-free image: sqrt(|X t|) / t
-           /\ \A k \in DOMAIN a.img : CountsRad(a.img[k] * sim.tm, sim.tm) = P!PoissonRad(a.img[k], sim.tm)
+           /\ \A k \in DOMAIN a.img : CountsRad(a.img[k] * sim.tm, sim.tm) = PoissonRad(a.img[k], sim.tm)
 
 \* the output lives on the frame of the input image, with its pixel scales and origin, for every kernel shape
 OutputFrameIsImageFrame ==
-    Img /\ Done =>
+    IsImg /\ Done =>
         /\ LastCall.out.h = LastCall.args.h /\ LastCall.out.w = LastCall.args.w /\ LastCall.out.g = LastCall.args.g
         /\ (~ LastCall.out.raised => Len(LastCall.out.num) = LastCall.args.h * LastCall.args.w)
 
@@ -445,16 +540,16 @@ OutputFrameIsImageFrame ==
 \* equal calls give equal results, earlier calls leave no trace
 CallsAreIndependent ==
     /\ \A j \in DOMAIN hist :
-          hist[j].out = IF Img THEN ImgPipeline(sim, hist[j].args) ELSE VisPipeline(sim, hist[j].args)
+          hist[j].out = IF IsImg THEN ImgPipeline(sim, hist[j].args) ELSE VisPipeline(sim, hist[j].args)
     /\ \A i \in DOMAIN hist : \A j \in DOMAIN hist : hist[i].args = hist[j].args => hist[i].out = hist[j].out
 \* ... and nothing but the seed attribute of the simulator ever changes
 SimulatorKeepsItsConfiguration == [][ [sim' EXCEPT !.seed = 0] = [sim EXCEPT !.seed = 0] ]_vars
 
 \* interferometer: noise-free data are C13's forward transform on the mask; the noise map is one of the two constants
 VisibilitiesAreTheForwardTransform ==
-    Vis /\ Done =>
-        /\ D!OnLattice(D!Centres(sim.u, sim.h, sim.w, sim.org), sim.b)
-        /\ LastCall.out.num = D!Vis(LastCall.args.img, D!Centres(sim.u, sim.h, sim.w, sim.org), sim.b)
+    IsVis /\ Done =>
+        /\ OnLattice(Centres(sim.u, sim.h, sim.w, sim.org), sim.b)
+        /\ LastCall.out.num = DftVis(LastCall.args.img, Centres(sim.u, sim.h, sim.w, sim.org), sim.b)
         /\ Len(LastCall.out.num) = Len(sim.b)
         /\ LastCall.out.nmap.kind = (IF sim.sigma THEN "sigma" ELSE "if-add-noise-false")
         /\ (sim.sigma <=> LastCall.out.nmap.rad # << >>)
